@@ -203,6 +203,7 @@ def run(prog, rep, tier):
     # ---------------- R20.2 ownership pairing
     n_from_raw = 0
     for body in ext + helpers:
+        body = inlined_body(prog, body)      # the null tests / the nulling of the caller's slot may be a shared private helper
         frs = [b for b in body.calls() if cnorm(b.term) == 'std::boxed::Box::from_raw']
         for fr in frs:
             n_from_raw += 1
@@ -213,7 +214,7 @@ def run(prog, rep, tier):
                 for i, s in enumerate(b.stmts):
                     if s.kind == 'assign' and s.place[1] == (('deref',),) and 1 <= min(ptr_root(body, s.place[0]), 999) <= body.arg_count:
                         e = expr_of(body, s.rv.ops[0]) if s.rv.ops else ('unknown',)
-                        if e[0] == 'call' and e[2].cmethod in ('null_mut', 'null') and body.dominates(b.idx, fr.idx):
+                        if e[0] == 'call' and e[2].cmethod in ('null_mut', 'null') and (body.dominates(b.idx, fr.idx) or fr.idx not in reachable_vs(body, 0, removed_blocks=[b.idx])):
                             ho = origins(body, [fr.term.args[0].place[0]], through_calls=True)
                             if ptr_root(body, s.place[0]) in ho.locals:
                                 nulled = True
